@@ -1,8 +1,12 @@
 import BoltonsVerif.Generated.Src_strutils_lines
 import BoltonsVerif.Generated.Src_jsonutils_lines
+import BoltonsVerif.Generated.Src_jsonutils_lines_text
+import BoltonsVerif.Generated.Src_jsonutils_jsonl
+import BoltonsVerif.Generated.Src_jsonutils_jsonl_text
 import BoltonsVerif.Generated.C19_LineEndings
 import BoltonsVerif.PyRtLemmas
 import BoltonsVerif.C19.Model
+import BoltonsVerif.C19.Props
 
 set_option linter.unusedSimpArgs false
 
@@ -489,5 +493,406 @@ theorem src_reverse_iter_lines_from (c : List Nat) (bs pos lfuel : Nat) (hbs : 1
 
 example : (match reverse_iter_lines (β := Nat) 9 [97, 10, 98, 13, 10, 99, 10] 0 3 true with
     | .ok ls => ls | .error _ => [[0]]) = [[], [99], [98], [97]] := by decide
+
+/-! ### ROUND 3f: reverse_iter_lines, TEXT mode (`encoding='utf-8'` given): every yielded line is decoded -/
+
+/-- the declared operation `utf8Decode` IS the model's strict decoder -/
+theorem isCont_rt (b : Nat) : PyRtC19.isCont b = isCont b := rfl
+
+theorem utf8Decode_eq_model : ∀ l : List Nat, PyRtC19.utf8Decode l = decodeG false l := by
+  intro l
+  fun_induction PyRtC19.utf8Decode l
+  all_goals (unfold decodeG; simp only [isCont_rt, Bool.false_or, Bool.or_false, Bool.false_eq_true, if_true, if_false, *] at *)
+  all_goals (first | done | (split <;> simp_all))
+
+/-- a text as the generated definition holds it: the list of its characters -/
+def chars (t : List Nat) : List Char := t.map Char.ofNat
+
+theorem decodeUtf8_nat (l : List Nat) :
+    PyRtC19.decodeUtf8? (β := Nat) l
+      = (match decodeG false l with | some t => .ok (chars t) | none => .error PyExc.ValueError) := by
+  simp only [PyRtC19.decodeUtf8?, PyRtC19.Byte.val, List.map_id_fun, id, utf8Decode_eq_model, chars]
+  rfl
+
+/-- everything a `for line in xs: yield line.decode(encoding)` loop yields, then the rest; the first line that does not
+    decode ends the generator with UnicodeDecodeError (a ValueError) -/
+def decAll (xs : List (List Nat)) (r : Except PyExc (List (List Char))) : Except PyExc (List (List Char)) :=
+  xs.foldr (fun l acc => match decodeG false l with
+    | some t => PyRt.yieldCons (chars t) acc
+    | none => .error PyExc.ValueError) r
+
+theorem decAll_append (xs ys : List (List Nat)) (r : Except PyExc (List (List Char))) :
+    decAll (xs ++ ys) r = decAll xs (decAll ys r) := by
+  simp [decAll, List.foldr_append]
+
+theorem decAll_nil (r : Except PyExc (List (List Char))) : decAll [] r = r := rfl
+
+theorem decAll_empty_line (r : Except PyExc (List (List Char))) : decAll [[]] r = PyRt.yieldCons [] r := by
+  simp [decAll, decodeG, chars]
+
+/-- the result in closed form: all the lines decoded, or the error -/
+theorem decAll_ok (xs : List (List Nat)) :
+    decAll xs (.ok []) = (match xs.mapM (decodeG false) with
+      | some ts => .ok (ts.map chars) | none => .error PyExc.ValueError) := by
+  induction xs with
+  | nil => rfl
+  | cons x xs ih =>
+    simp only [decAll, List.foldr_cons] at ih ⊢
+    rw [ih]
+    cases hx : decodeG false x <;> cases hxs : xs.mapM (decodeG false) <;> simp [List.mapM_cons, hx, hxs, PyRt.yieldCons]
+
+theorem revt_loop2_spec (k kb : reverse_iter_lines_text.St Nat → Except PyExc (List (List Char)))
+    (r : Except PyExc (List (List Char))) :
+    ∀ (xs : List (List Nat)) (s : reverse_iter_lines_text.St Nat), (∀ x, k { s with loc9 := x } = r) →
+      reverse_iter_lines_text.loop2 k kb (fun e _ => .error e) xs s = decAll xs r := by
+  intro xs
+  induction xs with
+  | nil => intro s h; simp only [reverse_iter_lines_text.loop2, decAll, List.foldr_nil]; exact h s.loc9
+  | cons x xs ih =>
+    intro s h
+    simp only [reverse_iter_lines_text.loop2, decAll, List.foldr_cons, decodeUtf8_nat]
+    have e := ih { s with loc9 := x } (fun y => h y)
+    cases hx : decodeG false x with
+    | none => rfl
+    | some t => simp only [e]; rfl
+
+theorem revt_loop3_spec (k kb : reverse_iter_lines_text.St Nat → Except PyExc (List (List Char)))
+    (r : Except PyExc (List (List Char))) :
+    ∀ (xs : List (List Nat)) (s : reverse_iter_lines_text.St Nat), (∀ x, k { s with loc9 := x } = r) →
+      reverse_iter_lines_text.loop3 k kb (fun e _ => .error e) xs s = decAll xs r := by
+  intro xs
+  induction xs with
+  | nil => intro s h; simp only [reverse_iter_lines_text.loop3, decAll, List.foldr_nil]; exact h s.loc9
+  | cons x xs ih =>
+    intro s h
+    simp only [reverse_iter_lines_text.loop3, decAll, List.foldr_cons, decodeUtf8_nat]
+    have e := ih { s with loc9 := x } (fun y => h y)
+    cases hx : decodeG false x with
+    | none => rfl
+    | some t => simp only [e]; rfl
+
+theorem revt_loop1_spec (c : List Nat) (bs : Nat) (hbs : 1 ≤ bs)
+    (k kb : reverse_iter_lines_text.St Nat → Except PyExc (List (List Char)))
+    (hk : ∀ s' : reverse_iter_lines_text.St Nat, s'.loc1 = [] → s'.loc2 = [10] → k s' = decAll (flush s'.loc4) (.ok [])) :
+    ∀ (n f p : Nat) (s : reverse_iter_lines_text.St Nat), p + 1 ≤ n → p ≤ f →
+      s.file_data = c → s.blocksize = (bs : Int) → s.loc1 = [] → s.loc2 = [10] → s.loc3 = [] → s.loc5 = (p : Int) →
+      reverse_iter_lines_text.loop1 k kb (fun e _ => .error e) n s
+        = decAll (revLoopS c (fun _ => bs) f p s.loc4) (.ok []) := by
+  intro n
+  induction n with
+  | zero => intro f p s h; omega
+  | succ n ih =>
+    intro f p s hn hf h1 h2 h3 h4 h6 h5
+    by_cases hp : p = 0
+    · subst hp
+      have e : revLoopS c (fun _ => bs) f 0 s.loc4 = flush s.loc4 := by cases f <;> simp [revLoopS]
+      rw [e]
+      simp only [reverse_iter_lines_text.loop1, h5]
+      simp [hk s h3 h4]
+    · obtain ⟨f, rfl⟩ : ∃ f', f = f' + 1 := ⟨f - 1, by omega⟩
+      have hmin : min (bs : Int) (p : Int) = ((min bs p : Nat) : Int) := by omega
+      have hsub : (p : Int) - ((min bs p : Nat) : Int) = ((p - min bs p : Nat) : Int) := by omega
+      have hpos : (0 : Int) < (p : Int) := by omega
+      simp only [reverse_iter_lines_text.loop1, h1, h2, h3, h4, h5, h6, hpos, if_true, hmin, hsub, seekSet_nat, fileRead_blk,
+        bytesSplitlines_nat]
+      have hrd : 1 ≤ min bs p := by omega
+      generalize hB : blk c (min bs p) p ++ s.loc4 = B
+      simp only [revLoopS, hp, if_false, hB]
+      have hrec : ∀ (s' : reverse_iter_lines_text.St Nat), s'.file_data = c → s'.blocksize = (bs : Int) → s'.loc1 = [] →
+          s'.loc2 = [10] → s'.loc3 = [] → s'.loc5 = ((p - min bs p : Nat) : Int) →
+          reverse_iter_lines_text.loop1 k kb (fun e _ => .error e) n s'
+            = decAll (revLoopS c (fun _ => bs) f (p - min bs p) s'.loc4) (.ok []) :=
+        fun s' a b c' d g e => ih f (p - min bs p) s' (by omega) (by omega) a b c' d g e
+      rcases hL : bytesSplitlines B with _ | ⟨l0, _ | ⟨l1, ls⟩⟩
+      · rw [if_pos (Or.inl (by simp [PyRt.len]))]
+        rw [hrec _ rfl rfl rfl rfl rfl rfl]
+      · rw [if_pos (Or.inl (by simp [PyRt.len]))]
+        rw [hrec _ rfl rfl rfl rfl rfl rfl]
+      · have hlen : ¬ (PyRt.len (l0 :: l1 :: ls) < 2) := by simp only [PyRt.len, List.length_cons]; omega
+        by_cases h0 : l0 = []
+        · rw [if_pos (Or.inr (by simp [PyRtC19.head, h0]))]
+          rw [hrec _ rfl rfl rfl rfl rfl rfl]
+          simp [h0]
+        · rw [if_neg (by simp [PyRtC19.head, h0, hlen])]
+          have hidx : PyRt.index? (l0 :: l1 :: ls) 0 = .ok l0 := by
+            simp [PyRt.index?, PyRt.normIdx]
+          simp only [h0, if_false, slice_last_nl]
+          rw [revt_loop2_spec (r := decAll (revLoopS c (fun _ => bs) f (p - min bs p) l0) (.ok []))]
+          · simp only [decAll_append, PyRtC19.revTail, List.tail_cons]
+            cases endsNL B <;>
+              simp only [if_true, if_false, Bool.false_eq_true, decAll_empty_line, decAll_nil, List.nil_append]
+          · intro x
+            simp only [hidx]
+            exact hrec _ rfl rfl rfl rfl rfl rfl
+
+/-- the code after the loop (`if buff: …`) yields the model's `flush buff`, each line decoded -/
+theorem revt_flush_spec (s : reverse_iter_lines_text.St Nat) (h1 : s.loc1 = []) (h2 : s.loc2 = [10]) :
+    (if s.loc4 ≠ [] then
+        (if PyRt.slice s.loc4 (some (-(1 : Int))) none = s.loc2 then
+          decAll (PyRtC19.reversed (PyRtC19.bytesSplitlines s.loc4 ++ [s.loc1])) (.ok [])
+        else decAll (PyRtC19.reversed (PyRtC19.bytesSplitlines s.loc4)) (.ok []))
+      else .ok []) = decAll (flush s.loc4) (.ok []) := by
+  simp only [h1, h2, slice_last_nl, bytesSplitlines_nat, PyRtC19.reversed, flush, linesOf]
+  by_cases hb : s.loc4 = [] <;> cases endsNL s.loc4 <;> simp [hb, decAll]
+
+/-- **the tie of `reverse_iter_lines`, TEXT mode** (`encoding='utf-8'` given; the file as in the binary tie): for EVERY
+    content `c`, block size `bs ≥ 1`, `preseek` flag and start position `pos`, with any loop fuel above the start
+    position, the generated definition is the model's byte lines (`revLoopS`, the SAME lines as in binary mode, in the
+    same order) each decoded with the model's strict UTF-8 decoder `decodeG false`; the first line that does not
+    decode ends it with UnicodeDecodeError (a ValueError); no other exception, no `OutOfFuel` -/
+theorem src_reverse_iter_lines_text_eq_model (c : List Nat) (bs pos lfuel : Nat) (preseek : Bool) (hbs : 1 ≤ bs)
+    (hf : (if preseek then c.length else pos) + 1 ≤ lfuel) :
+    reverse_iter_lines_text (β := Nat) lfuel c (pos : Int) (bs : Int) preseek
+      = decAll (revLoopS c (fun _ => bs) (if preseek then c.length else pos) (if preseek then c.length else pos) [])
+          (.ok []) := by
+  have e3 : ∀ (xs : List (List Nat)) (S : reverse_iter_lines_text.St Nat),
+      reverse_iter_lines_text.loop3 (fun _ => Except.ok []) (fun _ => Except.ok []) (fun e _ => Except.error e) xs S
+        = decAll xs (.ok []) :=
+    fun xs S => revt_loop3_spec _ _ _ xs S (fun _ => rfl)
+  have hk : ∀ s' : reverse_iter_lines_text.St Nat, s'.loc1 = [] → s'.loc2 = [10] →
+      (fun (s : reverse_iter_lines_text.St Nat) =>
+        if s.loc4 ≠ [] then
+          (if PyRt.slice s.loc4 (some (-(1 : Int))) none = s.loc2 then
+            reverse_iter_lines_text.loop3 (fun _ => Except.ok []) (fun _ => Except.ok []) (fun e _ => Except.error e)
+              (PyRtC19.reversed (PyRtC19.bytesSplitlines s.loc4 ++ [s.loc1]))
+              { s with loc8 := PyRtC19.bytesSplitlines s.loc4 ++ [s.loc1] }
+          else
+            reverse_iter_lines_text.loop3 (fun _ => Except.ok []) (fun _ => Except.ok []) (fun e _ => Except.error e)
+              (PyRtC19.reversed (PyRtC19.bytesSplitlines s.loc4)) { s with loc8 := PyRtC19.bytesSplitlines s.loc4 })
+        else Except.ok []) s' = decAll (flush s'.loc4) (.ok []) := by
+    intro s' h1 h2
+    simp only [e3]
+    exact revt_flush_spec s' h1 h2
+  have hb1 : ¬ ((bs : Int) < 1) := by omega
+  have hb2 : ¬ ((bs : Int) ≤ 0) := by omega
+  have hb3 : (1 : Int) ≤ (bs : Int) := by omega
+  have hb4 : (0 : Int) < (bs : Int) := by omega
+  cases preseek
+  · simp only [reverse_iter_lines_text, reverse_iter_lines_text.body, bytesLit_nat, Bool.false_eq_true, if_false, hb1, hb2,
+      hb3, hb4, if_true, not_true_eq_false, not_false_eq_true, ge_iff_le, gt_iff_lt] at hf ⊢
+    rw [revt_loop1_spec c bs hbs _ _ hk lfuel pos pos _ hf (Nat.le_refl _) rfl rfl rfl rfl rfl rfl]
+  · simp only [reverse_iter_lines_text, reverse_iter_lines_text.body, bytesLit_nat, if_true, PyRt.len, hb1, hb2, hb3, hb4,
+      if_false, not_true_eq_false, not_false_eq_true, ge_iff_le, gt_iff_lt] at hf ⊢
+    rw [revt_loop1_spec c bs hbs _ _ hk lfuel c.length c.length _ hf (Nat.le_refl _) rfl rfl rfl rfl rfl rfl]
+
+/-- `list(reverse_iter_lines(f, blocksize, encoding='utf-8'))` against the model's `reverseIterLinesText` (the lines of the
+    binary mode, each `decodeG false`d): all of them as texts when every one decodes, UnicodeDecodeError otherwise -/
+theorem src_reverse_iter_lines_text_preseek (c : List Nat) (bs pos lfuel : Nat) (hbs : 1 ≤ bs) (hf : c.length + 1 ≤ lfuel) :
+    reverse_iter_lines_text (β := Nat) lfuel c (pos : Int) (bs : Int) true
+      = (match (reverseIterLinesText c bs).mapM id with
+          | some ts => .ok (ts.map chars) | none => .error PyExc.ValueError) := by
+  rw [src_reverse_iter_lines_text_eq_model c bs pos lfuel true hbs (by simpa using hf), decAll_ok]
+  simp only [reverseIterLinesText, reverseIterLines, revLoop, if_true, List.mapM_map, Function.comp_def, id]
+
+/-- text mode with `preseek=False` and the file position at `pos` inside the file: the lines of `reverseIterLinesFrom`,
+    each decoded -/
+theorem src_reverse_iter_lines_text_from (c : List Nat) (bs pos lfuel : Nat) (hbs : 1 ≤ bs) (hp : pos ≤ c.length)
+    (hf : pos + 1 ≤ lfuel) :
+    reverse_iter_lines_text (β := Nat) lfuel c (pos : Int) (bs : Int) false
+      = decAll (reverseIterLinesFrom c pos bs) (.ok []) := by
+  rw [src_reverse_iter_lines_text_eq_model c bs pos lfuel false hbs (by simpa using hf)]
+  simp [reverseIterLinesFrom, revLoop, Nat.min_eq_left hp]
+
+/-- through `C19.reverse_lines_text`: on a file whose content is the UTF-8 encoding of the text `t`, text mode yields
+    exactly the lines of `t` (split at LF, CR, CR LF only; a final empty line when `t` ends with LF), last to first, for
+    every block size - and never raises -/
+theorem src_reverse_iter_lines_text_of_decodes (c t : List Nat) (bs pos lfuel : Nat) (hbs : 1 ≤ bs)
+    (hf : c.length + 1 ≤ lfuel) (hd : decodeG false c = some t) :
+    reverse_iter_lines_text (β := Nat) lfuel c (pos : Int) (bs : Int) true = .ok ((linesOf t).reverse.map chars) := by
+  rw [src_reverse_iter_lines_text_preseek c bs pos lfuel hbs hf]
+  simp only [reverseIterLinesText, reverse_lines_text false c t bs hbs hd, List.mapM_map, Function.comp_def, id]
+  have : ∀ xs : List (List Nat), List.mapM (fun x => some x) xs = some xs := by
+    intro xs; induction xs with
+    | nil => rfl
+    | cons x xs ih => simp [List.mapM_cons, ih]
+  rw [this]
+
+example : (match reverse_iter_lines_text (β := Nat) 9 [195, 169, 10, 98, 13, 10, 99, 10] 0 3 true with
+    | .ok ls => ls | .error _ => [['?']]) = [[], ['c'], ['b'], ['é']] := by decide
+
+example : (match reverse_iter_lines_text (β := Nat) 9 [97, 10, 255, 10] 0 2 true with
+    | .error PyExc.ValueError => true | _ => false) = true := by decide
+
+/-! ### ROUND 3f: `JSONLIterator.next` on a binary file: the stored line iterator is the list of the lines it still yields -/
+
+theorem asciiWs_eq_pyWs (c : Nat) : PyRtC19.asciiWs c = pyWs c := by
+  rw [Bool.eq_iff_iff]
+  simp [PyRtC19.asciiWs, pyWs, Generated.lstripSet, or_assoc]
+
+theorem crlf_eq_lineEnd (c : Nat) : ([13, 10] : List Nat).contains c = lineEnd c := by
+  rw [Bool.eq_iff_iff]
+  simp [lineEnd, Generated.rstripSet, or_comm]
+
+/-- `line.lstrip().rstrip(b'\r\n')` with the declared operations IS the model's `lineNorm` at the regenerated strip sets -/
+theorem strip_nat (l : List Nat) :
+    PyRtC19.rstripSet (PyRtC19.lstripWs l) (PyRtC19.bytesLit [13, 10] : List Nat) = lineNorm pyWs l := by
+  have h1 : (fun c : Nat => PyRtC19.asciiWs (PyRtC19.Byte.val c)) = pyWs := by
+    funext c; exact asciiWs_eq_pyWs c
+  have h2 : (fun c : Nat => (List.map PyRtC19.Byte.val ([13, 10] : List Nat)).contains (PyRtC19.Byte.val c)) = lineEnd := by
+    funext c; exact crlf_eq_lineEnd c
+  simp only [PyRtC19.rstripSet, PyRtC19.lstripWs, bytesLit_nat, lineNorm, rstripBy, lstripBy, h1, h2]
+
+/-- one `next()` of the model: the first line that contributes an outcome decides — an object (with the lines left), or
+    the error `next()` raises in strict mode; StopIteration when no line is left -/
+def nextModel {α : Type} (ws : Nat → Bool) (parse : List Nat → Except PyExc α) (ignore : Bool) :
+    List (List Nat) → Except PyExc (α × List (List Nat))
+  | [] => .error PyExc.StopIteration
+  | l :: ls =>
+    match outcomeOf ws parse ignore l with
+    | none => nextModel ws parse ignore ls
+    | some (.ok v) => .ok (v, ls)
+    | some (.error e) => .error e
+
+theorem jsonl_loop1_spec {α : Type} [Inhabited α] (parse : List Nat → Except PyExc α) (ignore : Bool)
+    (k kb : JSONLIterator_next.St Nat α → Except PyExc (α × List (List Nat))) :
+    ∀ (n : Nat) (ls : List (List Nat)) (s : JSONLIterator_next.St Nat α), ls.length + 1 ≤ n →
+      s.line_iter = ls → s.ignore_errors = ignore →
+      @JSONLIterator_next.loop1 Nat α _ _ _ _ ⟨parse⟩ k kb (fun e _ => .error e) n s = nextModel pyWs parse ignore ls := by
+  intro n
+  induction n with
+  | zero => intro ls s h; omega
+  | succ n ih =>
+    intro ls s hn h1 h2
+    cases ls with
+    | nil =>
+      simp only [JSONLIterator_next.loop1, h1, PyRtC19.iterNext?, nextModel]
+    | cons l ls =>
+      have hrec : ∀ s' : JSONLIterator_next.St Nat α, s'.line_iter = ls → s'.ignore_errors = ignore →
+          @JSONLIterator_next.loop1 Nat α _ _ _ _ ⟨parse⟩ k kb (fun e _ => .error e) n s' = nextModel pyWs parse ignore ls :=
+        fun s' a b => ih ls s' (by simp only [List.length_cons] at hn; omega) a b
+      simp only [JSONLIterator_next.loop1, h1, h2, PyRtC19.iterNext?, PyRtC19.iterRest, List.tail_cons, strip_nat,
+        PyRtC19.jsonLoadsFails, PyRtC19.jsonLoads?, nextModel, outcomeOf]
+      by_cases h0 : lineNorm pyWs l = []
+      · simp only [h0, not_true_eq_false, not_false_eq_true, ne_eq, if_true]
+        exact hrec _ rfl rfl
+      · simp only [h0, not_true_eq_false, not_false_eq_true, ne_eq, if_false]
+        cases hp : parse (lineNorm pyWs l) with
+        | ok v => simp
+        | error e =>
+          cases ignore with
+          | true => simp; exact hrec _ rfl rfl
+          | false => simp
+
+/-- **the tie of `JSONLIterator.next`** (binary file): for EVERY `json.loads` (`parse`, a pure function of the line, as the
+    model assumes), `ignore_errors` flag and list `ls` of lines the stored line iterator still yields, with any loop fuel
+    above their number, the generated definition is the model's `nextModel`: it skips the lines `outcomeOf` gives nothing
+    for (blank after `lstrip()` / `rstrip(b'\r\n')` at the regenerated strip sets; not parseable under `ignore_errors`)
+    and returns the first object with the lines left, or raises what `json.loads` raised (strict mode), or StopIteration;
+    never `OutOfFuel` -/
+theorem src_jsonl_next_eq_model {α : Type} [Inhabited α] (parse : List Nat → Except PyExc α) (ignore : Bool)
+    (ls : List (List Nat)) (lfuel : Nat) (hf : ls.length + 1 ≤ lfuel) :
+    @JSONLIterator_next Nat α _ _ _ _ ⟨parse⟩ lfuel ls ignore = nextModel pyWs parse ignore ls := by
+  simp only [JSONLIterator_next, JSONLIterator_next.body]
+  exact jsonl_loop1_spec parse ignore _ _ lfuel ls _ hf rfl rfl
+
+/-- what `next()` returns or raises is the head of the model's `outcomes` (StopIteration when there is none) -/
+theorem nextModel_head {α : Type} (ws : Nat → Bool) (parse : List Nat → Except PyExc α) (ignore : Bool) (ls : List (List Nat)) :
+    (nextModel ws parse ignore ls).map Prod.fst
+      = (match outcomes ws parse ignore ls with | [] => .error PyExc.StopIteration | r :: _ => r) := by
+  induction ls with
+  | nil => rfl
+  | cons l ls ih =>
+    simp only [nextModel, outcomes, List.filterMap_cons] at ih ⊢
+    cases h : outcomeOf ws parse ignore l with
+    | none => simpa [h] using ih
+    | some r => cases r <;> simp [Except.map]
+
+/-- and the lines left after a successful `next()` produce the rest of `outcomes`: draining `next()` yields `outcomes` -/
+theorem nextModel_rest {α : Type} (ws : Nat → Bool) (parse : List Nat → Except PyExc α) (ignore : Bool) (ls rest : List (List Nat)) (v : α)
+    (h : nextModel ws parse ignore ls = .ok (v, rest)) :
+    outcomes ws parse ignore ls = .ok v :: outcomes ws parse ignore rest := by
+  induction ls with
+  | nil => simp [nextModel] at h
+  | cons l ls ih =>
+    simp only [nextModel] at h
+    simp only [outcomes, List.filterMap_cons] at ih ⊢
+    cases ho : outcomeOf ws parse ignore l with
+    | none => rw [ho] at h; simpa using ih h
+    | some r =>
+      rw [ho] at h
+      cases r with
+      | error e => simp at h
+      | ok w => simp at h; obtain ⟨rfl, rfl⟩ := h; simp
+
+/-- a `reverse_iter_lines`-based reader — `JSONLIterator(f, reverse=True)` on a binary file with content `c`: its line iterator
+    is `reverse_iter_lines(f, blocksize, preseek=False)` with the file position at the end (where `_init_rel_seek` puts it
+    for `rel_seek = 1.0`).  The two generated definitions compose: the first returns the lines `ls` = the model's
+    `reverseIterLines c bs`, and `next()` over them is `nextModel` on those lines — so draining `next()` gives
+    `outcomes … (reverseIterLines c bs)` (`nextModel_head` / `nextModel_rest`), the sequence `jsonlReverse` consumes -/
+theorem src_jsonl_reverse_reader {α : Type} [Inhabited α] (parse : List Nat → Except PyExc α) (ignore : Bool)
+    (c : List Nat) (bs lf1 lf2 : Nat) (hbs : 1 ≤ bs) (h1 : c.length + 1 ≤ lf1)
+    (h2 : (reverseIterLines c bs).length + 1 ≤ lf2) :
+    ∃ ls, reverse_iter_lines (β := Nat) lf1 c (c.length : Int) (bs : Int) false = .ok ls ∧
+      @JSONLIterator_next Nat α _ _ _ _ ⟨parse⟩ lf2 ls ignore = nextModel pyWs parse ignore (reverseIterLines c bs) := by
+  refine ⟨reverseIterLines c bs, ?_, src_jsonl_next_eq_model parse ignore _ lf2 h2⟩
+  rw [src_reverse_iter_lines_from c bs c.length lf1 hbs (Nat.le_refl _) h1]
+  simp [reverseIterLinesFrom, reverseIterLines]
+
+example : (match @JSONLIterator_next Nat Nat _ _ _ _ ⟨fun b => if b = [120] then .error PyExc.ValueError else .ok b.length⟩
+      9 [[32, 10], [120], [9, 49, 50, 13, 10], [51]] true with
+    | .ok (v, rest) => (v, rest) | .error _ => (99, [])) = (2, [[51]]) := by decide
+
+example : (match @JSONLIterator_next Nat Nat _ _ _ _ ⟨fun b => if b = [120] then .error PyExc.ValueError else .ok b.length⟩
+      9 [[32, 10], [120], [49]] false with
+    | .error PyExc.ValueError => true | _ => false) = true := by decide
+
+/-! #### the same method on a TEXT-mode file (str lines; an item is a code point) -/
+
+theorem unicodeWs_eq_pyWsT (c : Nat) : PyRtC19.unicodeWs c = pyWsT c := rfl
+
+theorem strip_text_nat (l : List Nat) :
+    PyRtC19.rstripSet (PyRtC19.lstripWsT l) (PyRtC19.bytesLit [13, 10] : List Nat) = lineNorm pyWsT l := by
+  have h1 : (fun c : Nat => PyRtC19.unicodeWs (PyRtC19.Byte.val c)) = pyWsT := by
+    funext c; exact unicodeWs_eq_pyWsT c
+  have h2 : (fun c : Nat => (List.map PyRtC19.Byte.val ([13, 10] : List Nat)).contains (PyRtC19.Byte.val c)) = lineEnd := by
+    funext c; exact crlf_eq_lineEnd c
+  simp only [PyRtC19.rstripSet, PyRtC19.lstripWsT, bytesLit_nat, lineNorm, rstripBy, lstripBy, h1, h2]
+
+theorem jsonl_text_loop1_spec {α : Type} [Inhabited α] (parse : List Nat → Except PyExc α) (ignore : Bool)
+    (k kb : JSONLIterator_next_text.St Nat α → Except PyExc (α × List (List Nat))) :
+    ∀ (n : Nat) (ls : List (List Nat)) (s : JSONLIterator_next_text.St Nat α), ls.length + 1 ≤ n →
+      s.line_iter = ls → s.ignore_errors = ignore →
+      @JSONLIterator_next_text.loop1 Nat α _ _ _ _ ⟨parse⟩ k kb (fun e _ => .error e) n s
+        = nextModel pyWsT parse ignore ls := by
+  intro n
+  induction n with
+  | zero => intro ls s h; omega
+  | succ n ih =>
+    intro ls s hn h1 h2
+    cases ls with
+    | nil =>
+      simp only [JSONLIterator_next_text.loop1, h1, PyRtC19.iterNext?, nextModel]
+    | cons l ls =>
+      have hrec : ∀ s' : JSONLIterator_next_text.St Nat α, s'.line_iter = ls → s'.ignore_errors = ignore →
+          @JSONLIterator_next_text.loop1 Nat α _ _ _ _ ⟨parse⟩ k kb (fun e _ => .error e) n s'
+            = nextModel pyWsT parse ignore ls :=
+        fun s' a b => ih ls s' (by simp only [List.length_cons] at hn; omega) a b
+      simp only [JSONLIterator_next_text.loop1, h1, h2, PyRtC19.iterNext?, PyRtC19.iterRest, List.tail_cons, strip_text_nat,
+        PyRtC19.jsonLoadsFails, PyRtC19.jsonLoads?, nextModel, outcomeOf]
+      by_cases h0 : lineNorm pyWsT l = []
+      · simp only [h0, not_true_eq_false, not_false_eq_true, ne_eq, if_true]
+        exact hrec _ rfl rfl
+      · simp only [h0, not_true_eq_false, not_false_eq_true, ne_eq, if_false]
+        cases hp : parse (lineNorm pyWsT l) with
+        | ok v => simp
+        | error e =>
+          cases ignore with
+          | true => simp; exact hrec _ rfl rfl
+          | false => simp
+
+/-- **the tie of `JSONLIterator.next` on a TEXT-mode file** (str lines as lists of code points): as
+    `src_jsonl_next_eq_model`, with `str.lstrip()` = the regenerated Unicode white-space table `Generated.lstripSetT`
+    (`pyWsT`) and `rstrip('\r\n')`: the generated definition is `nextModel pyWsT parse ignore ls` — through
+    `nextModel_head` / `nextModel_rest` the `outcomes pyWsT …` the model's `jsonlForwardT` / `jsonlReverseText` consume -/
+theorem src_jsonl_next_text_eq_model {α : Type} [Inhabited α] (parse : List Nat → Except PyExc α) (ignore : Bool)
+    (ls : List (List Nat)) (lfuel : Nat) (hf : ls.length + 1 ≤ lfuel) :
+    @JSONLIterator_next_text Nat α _ _ _ _ ⟨parse⟩ lfuel ls ignore = nextModel pyWsT parse ignore ls := by
+  simp only [JSONLIterator_next_text, JSONLIterator_next_text.body]
+  exact jsonl_text_loop1_spec parse ignore _ _ lfuel ls _ hf rfl rfl
+
+-- U+00A0 and U+2003 are stripped from the front of a str line (not of a bytes line), `\r\n` from its end
+example : (match @JSONLIterator_next_text Nat Nat _ _ _ _ ⟨fun b => .ok b.length⟩
+      9 [[160, 8195], [160, 49, 50, 13, 10], [51]] true with
+    | .ok (v, rest) => (v, rest) | .error _ => (99, [])) = (2, [[51]]) := by decide
 
 end C19
